@@ -1,4 +1,5 @@
 """C06 — State rebuilt from the audit log equals the live state."""
+import shutil
 import vlib
 
 RULE = ("stream aggstore (sequential): seeded histories (create, accepted / rejected / no-op / vetoed commands, failed "
@@ -8,6 +9,14 @@ RULE = ("stream aggstore (sequential): seeded histories (create, accepted / reje
         "storage and a store over a copy holding only the command-N keys are compared with every live store object; the "
         "Lean model runs in lock-step on result + stored keys + stored records + snapshot; distinct_nontrivial counts "
         "distinct (op kind, model branch) pairs")
+
+
+def private_kmodel(ctx):
+    """Other checks relink lean/.lake/build/bin/kmodel while this one runs: work on a copy taken under the lake lock."""
+    dst = ctx.work / "kmodel"
+    with vlib.Lock("lake"):
+        shutil.copy2(vlib.KMODEL, dst)
+    vlib.KMODEL = dst
 
 
 def sig(case, idx, verdict):
@@ -21,6 +30,7 @@ def sig(case, idx, verdict):
 def check(ctx):
     vlib.prove(ctx, ["KrillModel.Props.C06"])
     found = False
+    private_kmodel(ctx)
     if vlib.build_harness(ctx, ["aggstore"]):
         n, length = (1200, 15) if ctx.tier == "quick" else (40000, 30)
         found = vlib.generic_stateful_stream(ctx, "aggstore", "aggstore C06", n, length, sig)
